@@ -350,37 +350,50 @@ def storeElement (res : Dict) (name : List Char) (v : XVal) : Dict :=
 
 /-! ### `_parse_recursively`, `parse`, `parse_ksr` -/
 
+/-- the value of an element: text, or — when the stripped text starts with "<" — the dict the
+    recursive call returns (`inner`; at `recurse = 0` it raises) -/
+def elementContent (inner : List Char → Out Dict) (value : List Char) : Out XVal :=
+  match value with
+  | '<' :: _ =>
+    match inner value with
+    | .ok d => .ok (.dict d)
+    | .err k => .err k
+    | .outOfFuel => .outOfFuel
+  | _ => .ok (.str value)
+
+/-- what one iteration of the `while xml:` loop does -/
+inductive Step where
+  | done (r : Out Dict)
+  | next (xml : List Char) (res : Dict)
+
+/-- the body of the `while xml:` loop of `_parse_recursively` (for a non-empty `xml`) -/
+def parseStep (cls : Classes) (sw : Switches) (inner : List Char → Out Dict) (xml : List Char) (res : Dict) :
+    Step :=
+  match strip cls.isStrip xml with
+  | [] => .done (.err .index)                      -- `xml[0]` on an all-whitespace string
+  | c :: t =>
+    if c ≠ '<' then .done (.err .value)             -- "XML parser got lost"
+    else
+      match parseFirstElement cls sw (c :: t) with
+      | .err k => .done (.err k)
+      | .outOfFuel => .done .outOfFuel
+      | .ok (el, endIdx) =>
+        match elementContent inner el.value with
+        | .err k => .done (.err k)
+        | .outOfFuel => .done .outOfFuel
+        | .ok v => .next ((c :: t).drop endIdx) (storeElement res el.name (elementValue el.attrs v))
+
 /-- the `while xml:` loop of `_parse_recursively` at one nesting level; `inner` is the recursive call
-    for a value that starts with "<" (at `recurse = 0` it raises).  One unit of fuel per iteration. -/
+    for a value that starts with "<".  One unit of fuel per iteration. -/
 def parseLoop (cls : Classes) (sw : Switches) (inner : List Char → Out Dict) :
     Nat → List Char → Dict → Out Dict
   | 0, xml, res => if xml.isEmpty then .ok res else .outOfFuel
   | fuel + 1, xml, res =>
     if xml.isEmpty then .ok res
     else
-      let s := strip cls.isStrip xml
-      match s with
-      | [] => .err .index                      -- `xml[0]` on an all-whitespace string
-      | c :: _ =>
-        if c ≠ '<' then .err .value             -- "XML parser got lost"
-        else
-          match parseFirstElement cls sw s with
-          | .err k => .err k
-          | .outOfFuel => .outOfFuel
-          | .ok (el, endIdx) =>
-            let value : Out XVal :=
-              match el.value with
-              | '<' :: _ =>
-                match inner el.value with
-                | .ok d => .ok (.dict d)
-                | .err k => .err k
-                | .outOfFuel => .outOfFuel
-              | _ => .ok (.str el.value)
-            match value with
-            | .err k => .err k
-            | .outOfFuel => .outOfFuel
-            | .ok v =>
-              parseLoop cls sw inner fuel (s.drop endIdx) (storeElement res el.name (elementValue el.attrs v))
+      match parseStep cls sw inner xml res with
+      | .done r => r
+      | .next xml' res' => parseLoop cls sw inner fuel xml' res'
 
 /-- `_parse_recursively(xml, recurse, res = {})`; the loop gets `len(xml) + 1` units of fuel -/
 def parseRec (cls : Classes) (sw : Switches) : Nat → List Char → Out Dict
